@@ -486,6 +486,12 @@ func (ndb *nodeDB) deleteVersion(version int64, cache *rootkeyCache) error {
 				// if the orphan is referred to the previous root, it should be reformatted
 				// to (version, 0), because the root (version, 1) should be removed but not
 				// applied now due to the batch writing.
+				// The root of an earlier version is only stored under (version, 0) if the
+				// version following it referred to it as its root when it was deleted;
+				// otherwise it still lives under (version, 1), so remove that key as well.
+				if err := ndb.deleteFromPruning(ndb.nodeKey(orphan.GetKey())); err != nil {
+					return err
+				}
 				orphan.nodeKey.nonce = 0
 			}
 			nk := orphan.GetKey()
